@@ -5,6 +5,7 @@ import re
 import vf
 import ddgen
 from checks import ddcommon
+from checks import alloccommon
 
 META = {
     "title": "out-of-memory is an error value; the manager stays intact and recovers after drop + gc",
@@ -14,12 +15,19 @@ META = {
     "level_text": "Theorems (coq/Props/C14.v, 163 = 66 + 97 for the other rule sets (last paragraph), all closed under the global context; for every capacity, every cache that only serves what was added, either recursor at every depth): oom_never_wrong (a result of the bounded run is literally the result of the unbounded run of the C02 model, hence the pointwise connective), oom_safe (after Err(OutOfMemory) the table is a well-formed BDD table extending the old one with a correct cache; handle list unchanged, every old reference valid with the same meaning, the nodes left behind unreachable from every handle, the reachable part unchanged; the store really is full), oom_no_panic (result or out-of-memory are the only outcomes: no unwrap panics, no divergence), oom_exact (fails if and only if the table of the unbounded run does not fit; hence failing or not is independent of the recursor), oom_retry / oom_monotone (fits => succeeds with exactly that result; success is monotone in the capacity and independent of the recursor), oom_var_exact (variable creation), collected_ok + oom_recover (failure, handles dropped, collection = restriction to the reachable part: well-formed sub-table without the garbage of the failed attempt, and the retry is again 'correct result iff it fits'), concrete non-vacuity examples; C14_own_* (ownership on the error paths, model coq/Mgr/OomOwn*.v on the state of the C07 interleaving model: table with reference counts + multiset of owned edges, every clone_edge / drop_edge / get_or_insert / EdgeDropGuard / EdgeVecDropGuard / `?` explicit, guard placement of recursor.rs and apply_rec.rs; not, 8 binary operators, ite, substitute_prepare + substitute + substitute_edge, quant): own_balance (every outcome: the tokens owned afterwards are exactly the caller's plus - on Ok - one for the result: nothing leaked, nothing double-released; no hypothesis), own_counts (CInv = exact reference counts preserved by every outcome; WF and rc_exact_b of the snapshot), own_total (never stuck: no double release, no count underflow, get_or_insert preconditions, unwraps), own_err_collect (after Err the collection of ConcGc.v leaves exactly the nodes of the original table reachable from the caller's tokens, entry by entry - count included - the table a collection of the state before would give), own_balance_late_*_refuted (the seeded guard placements - recursor guards after the second `?`, vector guard of substitute_prepare only at the final Ok - violate balance and rollback on concrete inputs). Tie to the code: fault enumeration by capacity sweep on the real managers (see technique); required of every run: each operation returns out-of-memory or the result demanded by the extracted spec layer; no panic, abort or hang (watchdog, child process); after every operation - in particular after every failed one - the lifted manager passes the extracted audits wf_full_b (C03) and rc_first_bad/rc_exact_b (C05: exact reference counts, i.e. everything acquired was released), every earlier handle has its old value table, canonicity holds; after DROPALL + GC no node survives, the capacity probe fills the store completely (no slot was lost on any failure path), and the retry of the whole script succeeds without any out-of-memory when the capacity is at least the measured need; for kind=bdd, 1 thread, capacity < 100 the extracted bounded model (no cache, sequential recursor) run on the snapshot before each NOT / binary operator / ITE / VAR / NVAR predicts the implementation exactly; for every such NOT / binary operator / ITE (failing ones with 1 thread only) the extracted ownership model (coq/Mgr/OomOwnTie.v: snapshot -> state, own_inv_b = CInv must hold) is run as well and must have the same outcome, own exactly the harness's handles afterwards (a result being stored in its slot) and predict the table after the operation node by node up to renaming WITH its reference counts (garbage of a failed run included). Other rule sets (C14_bcdd_*, C14_zbdd_*, C14_mt_*; models coq/Mgr/OomBcdd.v, OomZbdd.v, OomMtbdd.v = the algorithms of the C02 / C09 / C10 models once more in the error monad, function by function, on the combinators of OomGen.v: gbind = `?`, gjoin2 = rec.binary / ternary / binary_ternary of either recursor, gfin = reduce(..)? + cache insertion): never_wrong (a result is literally the result of the unbounded model, hence the pointwise connective / set operation / arithmetic operation), safe (after Err: the invariant of the kind - BcOK / ZbddOK + tautology chain / MtOK - with a correct cache, table only extended, intact_c / intact_z / intact_m: handle list, order, every stored node and terminal unchanged, every valid edge with the same semc / semz / semk under every fuel, every handle the same value, added nodes unreachable from every handle, live part unchanged; store full), no_panic, exact (fails iff the table of the unbounded run does not fit; MTBDD: iff inner nodes OR terminals do not fit - get_terminal fails iff the value is new and all terminal slots are in use; ite / restrict never touch the terminal store), outcome independent of the recursor (bcdd, zbdd; the MTBDD code has no recursor), retry, monotone in the capacity (MTBDD: in both), for bcdd: the 8 operators (through apply_bin And/Xor and tag flips), ite, negation (a tag flip: total), var; zbdd: union / intsec / diff, not, the 8 Boolean operators (symm_diff; nand / nor / equiv as two phases; imp through ite), ite (incl. binary_ternary), singleton; mtbdd: the 6 arithmetic operators, ite, restrict, constant, var (three fallible steps); concrete non-vacuity tables with every outcome, garbage after a failure, recursors differing in the cache of the failed run, and the exactness theorem instantiated for ALL capacities. Tie: for kind=bcdd / zbdd (capacity < 100) and mtbdd the extracted bounded models run on the snapshot before each covered operation (bcdd: NOT / 8 operators / ITE / VAR / NVAR; zbdd: UNION / INTSEC / DIFF / NOT / 8 operators / ITE / SINGLETON / MAKENODE; mtbdd: ADD .. MAX / ITE / CONSTN / VAR / RESTRICT incl. the harness's cube construction step by step; both the node-capacity and the terminal-capacity sweep) predict out-of-memory or not, the stored nodes and (mtbdd) stored terminals afterwards - after a failed run the garbage - and the result's value table; bcok_b / zbdd_ok_b + zchain_ok_b / mt_ok_b (the hypotheses) are evaluated on every snapshot. TDD (package TDDx): tdd scripts (variables, constants, not, 8 three-valued connectives, ite, cofactors; 1 and 8 workers) are swept over every inner-node capacity 0..need+2 like the other kinds: every operation returns out-of-memory or the result demanded by the extracted fixed tables (prop=C11), no panic / abort / hang, after every operation - in particular every failed one - the lifted manager passes wf_full_b, td_ok_b, td_wf3_b (C03), rc_first_bad and the ternary audit td_rc_b (C05: everything acquired was released), every earlier handle keeps its value table over all 3^n assignments, canonicity holds; after DROPALL + GC no node survives, the ternary capacity probe T3FILL (single-node steps, all alive, until out-of-memory) finds every slot in use, and the retry of the script succeeds without out-of-memory when the capacity is at least the measured need.",
     "level_note": "Partial / not proved: modelled with a budget are: plain BDD (apply_not, apply_bin for all 8 operators, apply_ite, var/not_var), BCDD (8 operators, ite, not, var/not_var), ZBDD (union / intsec / diff, not, 8 Boolean operators, ite, singleton, make_node), MTBDD (6 arithmetic operators, ite, restrict, constant, var; node and terminal budget); NOT modelled with a budget (fault enumeration only): quantification, substitution, restrict and pick_cube_dd of BDD / BCDD, ZBDD subset0 / subset1 / change / restrict / var_edge / pick, MTBDD value-table construction (a harness composite of the modelled operations), all rule sets' sat / eval queries (they do not allocate). The recovery theorems (drop + gc + retry, oom_recover_*) and the ownership model (C14_own_*) exist for the plain BDD rule set only; for the other kinds 'retry succeeds once space is free' is oom_retry (any table in which the result fits) + the enumeration's retry phase, and 'everything acquired is released' is the exact-count audit after every failed operation. The MTBDD algorithms have no parallel recursor in the code (always sequential), so there is no recursor parameter there. The parallel recursor is modelled as 'both branches run, in sequence' (the real interleaving of node creation between threads is not modelled; multi-threaded runs are checked by enumeration). Reference counts are not part of the model coq/Mgr/Oom.v ('releases everything it had acquired' = 'no node created by the failed run is reachable from a handle'); they are in the ownership model coq/Mgr/OomOwn*.v (C14_own_*: plain BDD rule set; not / binary operators / ite / substitute_prepare / substitute / substitute_edge / quant; restrict, apply_quant, pick_cube_dd and the other rule sets are not modelled there), whose correspondence run covers NOT / binary / ITE operations (successful ones with any number of threads, failing ones with one thread: table with counts after the operation); substitution and quantification of the ownership model are proof-only, the code's behaviour there is checked by the exact-count audit (rc_first_bad on the lifted snapshot after every failed operation = theorem own_counts on the code). The parallel recursor is sequentialised in the ownership model as well; terminal reference counts are not modelled (as in Conc.v). An a-priori (product) bound on the node need is not proved: oom_retry is stated relative to the nodes the unbounded run creates, which is what the check measures. gc is specified (collected = restriction to the reachable part) rather than modelled as an algorithm (that gc does this on the real manager is C05). Excluded by documented design: add_vars / manager creation for ZBDD and level_swap (reordering) call abort() on OOM - capacities below the number of ZBDD variables and reordering under exhausted capacity are not swept; DDDMP import under OOM is C15. Trusted: Coq kernel, extraction, the two OCaml drivers, Rust harness, public accessor API. TDD: no bounded (budget) model and no ownership model of the TDD rule set exist: for kind tdd the sweep is fault enumeration + end-state audit only (the c14 driver checks panics and the retry phase; the generic driver everything else).",
 }
+# package ALLOC (slot allocator of the index-based manager): coq/Mgr/Alloc*.v, theorems C14_alloc_*, stage checks/alloccommon.py
+META["technique"] += "; slot allocator of the index-based manager (package ALLOC): Rocq proofs over an executable interleaving model of Store::add_node / get_slot_from_shared / free_slot / prepare_local_state / guard drop / collector epilogue (coq/Mgr/Alloc.v: shared bump pointer, vector of free-list heads, next links in the slot array, per-thread list head / initialised range / node-count delta, CHUNK_SIZE a parameter) for every schedule of any number of threads; tie: the allocator events logged by the cfg(oxidd_verif) hooks of /repo are replayed on the extracted model (ocaml/alloc_main.ml)"
+META["level_text"] += " Slot allocator (package ALLOC, C14_alloc_*, 10 theorems; invariant and partition theorems under C05_alloc_*): for every state reachable under ANY interleaving of the threads' prepare / guard drop / add_node / free_slot / collector-epilogue actions: add_node is never stuck (never_stuck); it fails if and only if no free slot is reachable by the calling thread - no shared list, nothing left of the slot array, nothing in its own list or range (oom_iff), so that after a failure every free slot is parked in ANOTHER thread's local list or range and no slot was changed (oom_only_parked); when no other thread holds slots, out-of-memory iff all capacity slots hold a node (oom_single) and add_node succeeds as soon as one slot is free (retry_succeeds); in managers that never pre-allocate a chunk (capacity <= CHUNK_SIZE) add_node never parks a slot with a thread (no_hoard_scarce); the behaviour before /repo 45ba7ac (take_all_refuted), the seeded capacity-check-first order (cap_first_refuted) and the node count drift of failed allocations (oom_drift_refuted, fixed in /repo 0ceb9c4) violate these on computed schedules. Tie: hooks build of the harness, case parameter alloc=1: every logged get_slot_from_shared / add_node result / free_slot / guard drop / collector epilogue of sequential histories on 5..40 slots, parallel blocks, nested sessions (non-local branch), fill-drop-gc-retry cases, MTBDD terminal-store retry cases and managers with 1-3 chunks of 65536 slots is replayed on the extracted model: OutOfMemory where the model reaches a slot = violation (prop=C14), a slot handed out twice / freed twice / a shared node count that differs from the number of handed-out slots at a quiescent point = violation (prop=C05), any other difference = correspondence failure."
+META["level_note"] += " Slot allocator model (package ALLOC): u32 / i32 / i64 overflow, the contents of nodes, the condition variable of the collector thread (only gc_state) and memory ordering are not modelled; one get_slot_from_shared / free_slot / guard drop is one atomic action (they run under Store::state); the replay orders the critical sections by the order in which their events were logged (logged with the lock held); the hand-over of a local list inside free_slot is logged before and after its critical section (seeded hunks forbid a hook inside), an overlap with another thread's critical section is resolved by the number of shared lists the other event reports; chunk pre-allocation, the initialised range, taking a whole shared list and the hand-over are only reached by the cases with capacity > 65536."
+
 ALLOWED_AXIOMS = ()
 
 C14_VOS = ["Base/Conv.vo", "DD/Table.vo", "DD/TableExtra.vo", "DD/Sem.vo", "DD/Build.vo", "DD/Apply.vo", "Mgr/Oom.vo",
            "Mgr/Conc.vo", "Mgr/OomOwn.vo", "Mgr/OomOwnTie.vo",
            "Num/I64.vo", "DD/ApplyBcdd.vo", "DD/FamSpec.vo", "DD/ZbddOps.vo", "DD/ZbddBool.vo", "DD/ApplyMtbdd.vo",
-           "Mgr/OomGen.vo", "Mgr/OomBcdd.vo", "Mgr/OomZbdd.vo", "Mgr/OomMtbdd.vo"]
+           "Mgr/OomGen.vo", "Mgr/OomBcdd.vo", "Mgr/OomZbdd.vo", "Mgr/OomMtbdd.vo",
+           "DD/Quant.vo", "Mgr/OomBddQ.vo", "DD/QuantBcdd.vo", "Mgr/OomBcddQ.vo", "Mgr/OomZbddV.vo",
+           "DD/Tdd.vo", "DD/ApplyTdd.vo", "Mgr/OomTdd.vo"]
 PROPS = ["C14", "C01", "C02", "C03", "C04", "C05", "C09", "C10", "C11", "C13"]
 BIG = 1 << 14
 
@@ -213,6 +221,14 @@ def script_zbdd(rng, nv, length):
             a = pick()
             o, v = rng.choice(['SUBSET0', 'SUBSET1', 'CHANGE']), rng.randrange(nv)
             ops.append(f"{o} h{fresh((a in no0 and v != 0) or (v == 0 and o != 'CHANGE'))} h{a} {v}")
+        elif q < 0.54:
+            # restrict by a literal cube (the harness builds the cube: t, var / not_var, and) / var_edge / not_var_edge
+            if rng.random() < 0.7:
+                pos = rng.randrange(1 << nv)
+                neg = rng.randrange(1 << nv) & ~pos
+                ops.append(f"RESTRICT h{fresh()} h{pick()} {pos} {neg}")
+            else:
+                ops.append(f"{rng.choice(['VAR', 'NVAR'])} h{fresh()} {rng.randrange(nv)}")
         elif q < 0.58 and no0:
             # make_node(var, hi, lo) requires var above everything in hi and lo: the top variable, operands free of it
             a, b = rng.choice(sorted(no0)), rng.choice(sorted(no0))
@@ -384,7 +400,14 @@ def sweep_cases(scripts, need, max_span=None):
             tail += ["FILL", "GC"]        # capacity probe: every slot is available again
         tdd_probe = (kind == "tdd")
         lo = nv if kind == "zbdd" else 0    # ZBDD add_vars aborts by documented design when the chain does not fit
-        for c in range(lo, n_inner + 3):
+        caps = list(range(lo, n_inner + 3))
+        if max_span is not None and len(caps) > max_span + 8:
+            # quick tier: every capacity of the first max_span and of the last five (need-2 .. need+2), every
+            # third one in between (the offset depends on the script, hence on the seed)
+            off = sum(map(ord, sid)) % 3
+            caps = [c for i, c in enumerate(caps)
+                    if i < max_span or c >= n_inner - 2 or (i - max_span) % 3 == off]
+        for c in caps:
             # (tdd: the ternary probe T3FILL sized for this capacity: single nodes until out-of-memory)
             ctail = tail + ([ddgen.t3fill_op(c, nv), "GC"] if tdd_probe else [])
             full = ops + ctail + ops[1:] + ["DROPALL", "GC"]
@@ -434,7 +457,7 @@ def run(ctx):
     binp, drv, drv2 = build(ctx)
     scripts = gen_scripts(ctx)
     need = measure(ctx, binp, scripts)
-    cases = sweep_cases(scripts, need)
+    cases = sweep_cases(scripts, need, max_span=None if ctx.tier == "thorough" else 32)
     ns = sorted(n for n, _ in need.values())
     vf.log(f"C14: {len(scripts)} scripts, node needs min {ns[0]} / median {ns[len(ns) // 2]} / max {ns[-1]}, {len(cases)} sweep cases")
     # pass 1: the generic DD driver (spec comparison of every successful op, audits on every snapshot)
@@ -472,6 +495,8 @@ def run(ctx):
              "replay_cmd": f"./check {ctx.pid} --replay <this file>",
              "theorem_or_relation": "C14: coq/Props/C14.v; ocaml/c14_main.ml (no panic, retry phase without out-of-memory, prediction by the extracted bounded model)"},
             nfif=(kind != "prop"))
+    # package ALLOC: the slot allocator stage (hooks build, event replay on the extracted model coq/Mgr/Alloc.v)
+    alloc_cov = alloccommon.run_stage(ctx)
     nt = lambda k: int(ctx.stats.get(k, 0))
     ctx.stats["distinct_nontrivial"] = len({(h.split(" ", 1)[1], tuple(ops)) for h, ops in cases if len(ops) >= 3})
     ctx.stats["cases"] = len(cases)
@@ -493,7 +518,17 @@ def run(ctx):
                    "model_predicted_oom_with_garbage_mtbdd": nt("model_oom_with_garbage_mtbdd"),
                    "ownership_model_predictions_after_failed_op": nt("own_predictions"), "ownership_model_predictions_after_result": nt("own_predictions_ok"),
                    "ownership_hypothesis_checks": nt("chk_own_inv"),
-                   "tier": ctx.tier, "props_reported": PROPS},
+                   # package C14z: quantification / restrict / substitute (bdd, bcdd), subset / change / restrict / var (zbdd), tdd
+                   "model_predictions_quant_bdd": nt("predictions_z_bdd"), "model_predictions_quant_bcdd": nt("predictions_z_bcdd"),
+                   "model_predictions_subset_restrict_zbdd": nt("predictions_z_zbdd"), "model_predictions_tdd": nt("predictions_z_tdd"),
+                   "model_predicted_oom_quant_bdd": nt("model_oom_z_bdd"), "model_predicted_oom_quant_bcdd": nt("model_oom_z_bcdd"),
+                   "model_predicted_oom_subset_restrict_zbdd": nt("model_oom_z_zbdd"), "model_predicted_oom_tdd": nt("model_oom_z_tdd"),
+                   "model_predicted_oom_with_garbage_quant_bdd": nt("model_oom_with_garbage_z_bdd"),
+                   "model_predicted_oom_with_garbage_quant_bcdd": nt("model_oom_with_garbage_z_bcdd"),
+                   "model_predicted_oom_with_garbage_subset_restrict_zbdd": nt("model_oom_with_garbage_z_zbdd"),
+                   "model_predicted_oom_with_garbage_tdd": nt("model_oom_with_garbage_z_tdd"),
+                   "call_hypothesis_checks_bcdd": nt("chk_cqcall_ok"), "call_hypothesis_checks_zbdd": nt("chk_zvcall_ok"),
+                   "tier": ctx.tier, "props_reported": PROPS, "alloc_stage": alloc_cov, "alloc_stage_rule": alloccommon.RULE},
         assumptions=[
             "snapshots are taken through the public Manager/LevelView/InnerNode API under the exclusive manager lock; a bug in those accessors is in the trusted base",
             "value tables of handles are computed by the extracted interpreters of coq/DD/Table.v on the lifted snapshot, expected results by the extracted spec layer coq/DD/Sem.v (generic driver) and by the extracted bounded models coq/Mgr/Oom.v, OomBcdd.v, OomZbdd.v, OomMtbdd.v (C14 driver)",
@@ -506,6 +541,8 @@ def replay(ctx, path):
     import json
     binp, drv, drv2 = build(ctx)
     r = json.load(open(path))
+    if r.get("driver") == "alloc":
+        return alloccommon.replay(ctx, r)
     f = os.path.join(ctx.workdir, "replay.txt")
     vf.write_cases(f, [(r["case_header"], r["ops"])])
     if r.get("driver") == "c14":
